@@ -97,6 +97,10 @@ def split_blocks(text):
     """{case id: [lines]} from 'H id' ... 'E' output; an unfinished block is marked crashed"""
     blocks, cur, cid = {}, None, None
     for line in text.split('\n'):
+        if line.startswith('K '):
+            t = line.split(' ', 2)
+            blocks[t[1]] = [t[2] if len(t) > 2 else '']
+            continue
         if line.startswith('H '):
             cid, cur = line[2:].strip(), []
         elif line == 'E' or line.startswith('E '):
@@ -198,6 +202,18 @@ def mask_elems(s):
     return ''.join(out)
 
 
+_W24_UN = re.compile(r'\(U(\d+) a(-?\d+)\)')
+
+
+def w24_values(s):
+    """the 24-byte plain element type has no symbolic payload: closure f maps value v to v + 1000000*(f-9)"""
+    while True:
+        t = _W24_UN.sub(lambda m: 'a' + str(int(m.group(2)) + 1000000 * (int(m.group(1)) - 9)), s)
+        if t == s:
+            return s
+        s = t
+
+
 def split_top(s):
     """split '[a,b,(c d),[e,f]]' contents at top-level commas"""
     parts, depth, cur = [], 0, ''
@@ -226,8 +242,8 @@ def canon_line(line, case, op, side_of_model=False):
             obs = mask_elems(obs)
         pool = mask_elems(pool)
     elif case.elem == 'w24':
-        obs = re.sub(r'\bD\b', 'a0', obs)
-        pool = re.sub(r'\bD\b', 'a0', pool)
+        obs = w24_values(re.sub(r'\bD\b', 'a0', obs))
+        pool = w24_values(re.sub(r'\bD\b', 'a0', pool))
     if op is not None and op[0] in (123, 124, 125, 126, 127, 128) and obs.startswith('['):
         obs = '[' + ','.join(sorted(split_top(obs[1:-1]))) + ']'
     return obs, pool
@@ -243,6 +259,7 @@ def compare_case(case, hlines, mlines):
     findings = []
     ops = [o for o in case.ops if o[1] != 'fault']
     n = len(ops)
+    faulted = False
     for i in range(n):
         o = ops[i]
         if i >= len(hlines):
@@ -254,10 +271,15 @@ def compare_case(case, hlines, mlines):
                                  expected=(mlines[i] if mlines and i < len(mlines) else '?')))
             break
         side = side_of(hl)
+        if ' fired=1' in side:
+            faulted = True
         if side and not side.startswith('ok '):
-            findings.append(dict(kind='oracle', op_index=i, op=o[1], detail='direct oracle: ' + side.split(' cl=')[0],
-                                 observed=hl))
-        if mlines is None:
+            problems = [x for x in side.split(' cl=')[0].split('|') if not (faulted and leak_only(x))]
+            if problems:
+                findings.append(dict(kind='oracle', op_index=i, op=o[1], detail='direct oracle: ' + '|'.join(problems),
+                                     observed=hl))
+        if mlines is None or faulted:
+            # after an injected panic the functional model no longer describes the state; the direct oracles go on
             continue
         if i >= len(mlines):
             findings.append(dict(kind='model', op_index=i, op=o[1], detail='model produced no line'))
@@ -270,13 +292,21 @@ def compare_case(case, hlines, mlines):
             break
     if len(hlines) > n:
         last = hlines[n]
-        if last.startswith('E ') and 'live=' in last:
+        if last.startswith('E ') and 'live=' in last and not (faulted and last.endswith('flags=') and int(last.split('live=')[1].split()[0]) > 0):
             findings.append(dict(kind='oracle', op_index=n, op='<drop pool>', detail='ledger after dropping every matrix: ' + last,
                                  observed=last))
         elif last.startswith('CRASH'):
             findings.append(dict(kind='oracle', op_index=n, op='<drop pool>', detail='process died while dropping: ' + last,
                                  observed=last))
     return findings
+
+
+def leak_only(item):
+    """after a caught panic elements may at worst be leaked: more live elements than the matrices hold is allowed"""
+    if item.startswith('live='):
+        a, b = item[5:].split('!=')
+        return int(a) > int(b)
+    return False
 
 
 # ---------------------------------------------------------------------------------------------
